@@ -26,6 +26,7 @@ import (
 	"pgregory.net/rapid"
 
 	"github.com/obolnetwork/charon/core"
+	"github.com/obolnetwork/charon/core/consensus/protocols"
 	"github.com/obolnetwork/charon/core/consensus/timer"
 	pbv1 "github.com/obolnetwork/charon/core/corepb/v1"
 	"github.com/obolnetwork/charon/core/dutydb"
@@ -197,6 +198,65 @@ func runDecidedValue(t *testing.T, rt *rapid.T) {
 		comps = append(comps, c)
 	}
 	lead := int(leader(duty, 1, n))
+	// Half of the cases: one member other than the round-1 leader also sends structurally odd consensus
+	// messages, validly signed with its own key: any type number (also 0, negative, beyond the last type),
+	// hash fields of any length, odd rounds, with or without (equally odd) justifications. The nodes that
+	// receive them must cope: they are at most f = 1 members' messages, so every other node still has to get
+	// the leader's value decided (a node whose instance dies on such a message is not handling it safely).
+	oddSender := -1
+	oddSent := 0
+	if rapid.Bool().Draw(rt, "oddMember") {
+		oddSender = (lead + 1 + rapid.IntRange(0, n-2).Draw(rt, "oddSender")) % n
+		mk := func(label string) *pbv1.QBFTMsg {
+			// a plausible message first (fields the receive checks let through) ...
+			m := &pbv1.QBFTMsg{
+				Type:          int64(rapid.IntRange(1, 5).Draw(rt, label+"Type")),
+				Duty:          core.DutyToProto(duty),
+				PeerIdx:       int64(oddSender),
+				Round:         int64(rapid.IntRange(1, 3).Draw(rt, label+"Round")),
+				PreparedRound: int64(rapid.IntRange(0, 2).Draw(rt, label+"PreparedRound")),
+			}
+			if rapid.Bool().Draw(rt, label+"HasValueHash") {
+				m.ValueHash = make([]byte, 32)
+			}
+			if m.PreparedRound > 0 {
+				m.PreparedValueHash = make([]byte, 32)
+			}
+			// ... then one or two oddities
+			for k := rapid.IntRange(1, 2).Draw(rt, label+"Oddities"); k > 0; k-- {
+				switch rapid.IntRange(0, 4).Draw(rt, label+"Oddity") {
+				case 0:
+					m.Type = int64(rapid.SampledFrom([]int{-1, 0, 6, 6, 7, 8, 255}).Draw(rt, label+"OddType"))
+				case 1:
+					m.ValueHash = make([]byte, rapid.SampledFrom([]int{1, 31, 33, 64}).Draw(rt, label+"OddHashLen"))
+				case 2:
+					m.PreparedValueHash = make([]byte, rapid.SampledFrom([]int{1, 31, 33, 64}).Draw(rt, label+"OddPreparedHashLen"))
+				case 3:
+					m.Round = int64(rapid.SampledFrom([]int{-1, 0, 1 << 40}).Draw(rt, label+"OddRound"))
+				default:
+					m.PreparedRound = int64(rapid.SampledFrom([]int{-1, 5, 1 << 40}).Draw(rt, label+"OddPreparedRound"))
+				}
+			}
+			sm, err := signMsg(m, wireKey(n, oddSender))
+			if err != nil {
+				panic("HARNESS-ERROR: sign: " + err.Error())
+			}
+			return sm
+		}
+		for k := rapid.IntRange(1, 4).Draw(rt, "oddMessages"); k > 0; k-- {
+			msg := &pbv1.QBFTConsensusMsg{Msg: mk("odd")}
+			for j := rapid.SampledFrom([]int{0, 0, 0, 1, 2}).Draw(rt, "oddJustifications"); j > 0; j-- {
+				msg.Justification = append(msg.Justification, mk("oddJust"))
+			}
+			for to := 0; to < n; to++ {
+				if to != oddSender {
+					net.Inject(peers[oddSender].ID, peers[to].ID, protocols.QBFTv2ProtocolID, msg)
+					oddSent++
+				}
+			}
+		}
+		synctest.Wait()
+	}
 	for i := 0; i < n; i++ {
 		wg.Add(1)
 		go func() {
@@ -217,13 +277,16 @@ func runDecidedValue(t *testing.T, rt *rapid.T) {
 	synctest.Wait()
 	mu.Lock()
 	defer mu.Unlock()
-	if shape == "ordinary" && typ != core.DutyInfoSync && stored+storeErrs < n {
+	if shape == "ordinary" && typ != core.DutyInfoSync && oddSender >= 0 && stored+storeErrs < n-1 {
+		rt.Fatalf("NOT HANDLED SAFELY: member %d sent %d structurally odd (validly signed) consensus messages; the leader's ordinary %s data set then reached the duty store of only %d of the %d other nodes", oddSender, oddSent, typ, stored+storeErrs, n-1)
+	}
+	if shape == "ordinary" && typ != core.DutyInfoSync && oddSender < 0 && stored+storeErrs < n {
 		// positive control: the harness does reach the decide callbacks (the store may still refuse a
 		// generated value for reasons of its own, e.g. an aggregate with several committee bits)
 		rt.Fatalf("CONTROL: an ordinary %s data set proposed by the leader reached the duty store of %d of %d nodes", typ, stored+storeErrs, n)
 	}
 	decidedSomething := stored+storeErrs+priorities > 0
-	vstat.Case(fmt.Sprintf("decided/%s/%s/%d/%d", typ, shape, slot, seed), shape != "ordinary" && decidedSomething, "decided_value", "decided_value_shape:"+shape, "decided_value_duty:"+typ.String(), clsW("decided_value_store_refused", storeErrs > 0), clsW("decided_value_stored", stored > 0))
+	vstat.Case(fmt.Sprintf("decided/%s/%s/%d/%d", typ, shape, slot, seed), shape != "ordinary" && decidedSomething, "decided_value", "decided_value_shape:"+shape, "decided_value_duty:"+typ.String(), clsW("odd_wire_messages_from_one_member", oddSender >= 0), clsW("decided_value_store_refused", storeErrs > 0), clsW("decided_value_stored", stored > 0))
 	if shape != "ordinary" && vstat.WantSample("decided_value:"+shape) {
 		vstat.Sample("decided_value:"+shape, map[string]any{"duty": duty.String(), "leader_value": shape, "stored_by_nodes": stored, "store_refused_by_nodes": storeErrs, "priority_callbacks": priorities})
 	}
